@@ -146,6 +146,7 @@ let strip_eol e =
 let () =
   let dumpfile = Sys.argv.(1) and casefile = Sys.argv.(2) in
   let fuel = nat_of_int (if Array.length Sys.argv > 3 then int_of_string Sys.argv.(3) else 3000) in
+  let rof = Hashtbl.create 16 in
   let nodes = Hashtbl.create 100 and named = Hashtbl.create 100 and custom = Hashtbl.create 100
   and roots = Hashtbl.create 100 and runs = ref [] in
   let ic = open_in dumpfile in
@@ -168,6 +169,11 @@ let () =
       match split_ws (String.sub l 4 (String.length l - 4)) with
       | fam :: r :: toks -> Hashtbl.replace custom (int_of_string fam, int_of_string r) (parse_act toks)
       | _ -> failwith "bad act"
+    end else if String.length l > 4 && String.sub l 0 4 = "ROF " then begin
+      (* rules for which the must_if control families 4/5 raise from failure() *)
+      match split_ws (String.sub l 4 (String.length l - 4)) with
+      | [r] -> Hashtbl.replace rof (int_of_string r) ()
+      | _ -> failwith "bad rof"
     end else if String.length l > 4 && String.sub l 0 4 = "REG " then begin
       match split_ws (String.sub l 4 (String.length l - 4)) with
       | [gid; root; cfg] -> Hashtbl.replace roots (gid, cfg) (int_of_string root)
@@ -265,7 +271,7 @@ let () =
                   | 13 -> AThrow N0
                   | _ -> ARet true);
               has_unwind = (fun ctl -> int_of_nat ctl mod 2 = 0);
-              raise_on_failure = (fun _ _ -> false) } in
+              raise_on_failure = (fun ctl r -> int_of_nat ctl >= 4 && Hashtbl.mem rof (int_of_nat r)) } in
     let d = { dA = a; dM = m; dAct = nat_of_int fam0; dCtl = nat_of_int ctl0; dDepth = O } in
     let s = unhex inp in
     let bytes = List.init (String.length s) (fun i -> n_of_int (Char.code s.[i])) in
